@@ -35,6 +35,8 @@ man = {
          "kind_free_text": "reaching-definition inlining, callee resolution, cast stripping, stop names, enclosing guards, emptiness-guard recogniser: structural rules independent of local names and import aliases"},
         {"name": "E6 end-of-stream evaluation", "path": "sa/eofeval.py", "serves_properties": ["C20"],
          "kind_free_text": "constant propagation of the EOF value through read loops; every back edge must consume a finite resource"},
+        {"name": "shared rule modules (round 5)", "path": "sa/memostore.py", "serves_properties": ["C01", "C04", "C08", "C09", "C10", "C11", "C14", "C15", "C18", "C19"],
+         "kind_free_text": "rules used by several checks: sa/memostore.py (hand-written memo stores: backward data slice of the stored value), sa/passthrough.py (must-pass-through by CFG path cut), sa/svgarc.py (SVG sweep flag vs orientation, E3 + witness evaluation of the extracted rational function), sa/rigidrule.py (is_rigid verdict array == R R^T - I), sa/scenerecert.py (scene memo re-certification across forest writes), sa/interiorpt.py (hole seeds are interior points)"},
         {"name": "self-test harness", "path": "sa/selftest.py", "serves_properties": sorted(CHECKS),
          "kind_free_text": "mutant / benign variants (mutants/*.json) and seeded changes (seeded/*) applied to scratch copies under $TMPDIR; run by --tier thorough, results in evidence"},
     ],
